@@ -132,7 +132,7 @@ pub fn generate(seed: u64, tier: Tier) -> Case {
             .filter(|it| closed.contains(&it.module))
             .map(|it| it.name.clone())
             .collect();
-        match rng.below(11) {
+        match rng.below(12) {
             0 | 1 => {
                 // A new module; some of its types share their short name with types the
                 // observed closure uses.
@@ -247,6 +247,41 @@ pub fn generate(seed: u64, tier: Tier) -> Case {
                     push_item(&mut rng, &mut p, it);
                     observed.remove(&p.modules[x].out_path());
                     notes.push("edit:unreferenced_type_in_imported_module".to_string());
+                }
+            }
+            10 => {
+                // A file whose path differs from a closure module's only by `-` for `_` (or in
+                // letter case): another module, with types of the same short names (built-in
+                // fields only: its own path is not a valid Rust path segment).
+                let cands: Vec<usize> = closed
+                    .iter()
+                    .copied()
+                    .filter(|m| p.modules[*m].path.last().is_some_and(|s| s.contains('_')))
+                    .collect();
+                if !cands.is_empty() {
+                    let host = *rng.pick(&cands);
+                    let k = p.modules.len();
+                    let mut path = p.modules[host].path.clone();
+                    let last = path.len() - 1;
+                    path[last] = path[last].replace('_', "-");
+                    p.modules.push(Module {
+                        path,
+                        ..Default::default()
+                    });
+                    let names: Vec<String> = p
+                        .items
+                        .iter()
+                        .filter(|it| it.module == host)
+                        .map(|it| it.name.clone())
+                        .collect();
+                    for (j, name) in names.into_iter().take(3).enumerate() {
+                        let mut it = simple_type(name, k, 8 * (j + 1), false, ptr);
+                        if let ItemKind::Type { align, .. } = &mut it.kind {
+                            *align = Some(ptr);
+                        }
+                        push_item(&mut rng, &mut p, it);
+                    }
+                    notes.push("edit:add_module_differing_only_in_hyphen".to_string());
                 }
             }
             8 | 9 => {
